@@ -75,6 +75,19 @@ func C05(c *Ctx) int {
 	if err := c.TokenGameRound(fs, loops, RoundOpts{Label: "reentry", MaxSteps: 24, Simulate: sim}); err != nil {
 		c.Infraf("%v", err)
 	}
+	// the same loops with every request answered the moment it appears: the join is reached again
+	// while the gateways' flow trackers are still digesting the traces of the previous activation
+	{
+		both := []*prog.Program{gen.OrTightLoop(2), gen.OrTightLoop(3)}
+		reps := 400
+		if !c.Quick() {
+			reps = 4000
+		}
+		if err := c.TokenGameRound(fs, both, RoundOpts{Label: "reentry-instant", MaxSteps: 1, Reps: reps,
+			Job: JobOpts{Instant: true, LingerMs: -1, Perturb: 7, TMs: 3000}}); err != nil {
+			c.Infraf("%v", err)
+		}
+	}
 	c.Extra["programs"] = len(ps) + len(loops)
 	return c.Finish("model_checking", "inclusive fork/join pairs with 1..4 conditional branches, default absent or at every position, optionally one branch ending before the join; TLC enumerates every truth assignment and every order in which the activated branches finish; replayed on the real engine and validated by TokenGameTrace (join never early, exactly one release per activation, no waiting for non-activated branches, no-flow error)", !c.Quick(), fs)
 }
